@@ -25,6 +25,8 @@ def matrix(q):
 
 
 def run(ctx):
-    cov = e1.explore(ctx, matrix(ctx.tier == "quick"), ["C10"])
+    # every oracle counts on an aliasing call: reading the argument after it was destroyed or moved-from (a lifetime
+    # failure) is exactly "not handled as if copied first", even when the value still looks right
+    cov = e1.explore(ctx, matrix(ctx.tier == "quick"), ["C10"], any_fail_on_ops=r"_ALIAS$")
     al = ("PUSH_ALIAS", "EMPLACE_BACK_ALIAS", "INS_ALIAS", "INS_N_ALIAS", "EMPLACE_ALIAS", "RESIZE_ALIAS", "ASSIGN_ALIAS", "APPEND_ALIAS")
     return ctx.finish("model_checking", cov, e1.ASSUME + ["aliasing transitions are those of kinds " + ", ".join(al)])
